@@ -371,6 +371,9 @@ def oracle_render(d) -> str:
 
 def oracle(case) -> str:
     kind = case["kind"]
+    if kind == "history":
+        states = simulate_history(case)[1]
+        return " ## ".join(states[-1]) if states and states[-1] else "-"
     if kind == "split":
         r = case["s"].split()
         return "/".join(tok(t) for t in r) if r else "-"
@@ -477,6 +480,8 @@ def execute(case):
     dc, lc = _classes()
     kind = case["kind"]
     extra = []
+    if kind == "history":
+        return exec_history(case)
     if kind == "split":
         r = nonwhitespace_re.findall(case["s"])
         return ("/".join(tok(t) for t in r) if r else "-"), extra
@@ -561,6 +566,8 @@ def execute(case):
 
 def model_line(case) -> str:
     kind = case["kind"]
+    if kind == "history":
+        return history_line(case)
     if kind == "split":
         return "c17 split " + tok(case["s"])
     if kind == "multi":
@@ -776,6 +783,329 @@ def gen_tag_case(r):
 # running
 # --------------------------------------------------------------------------------------
 
+# --------------------------------------------------------------------------------------
+# histories: several tags with the same raw values under one builder, lists changed in place
+# --------------------------------------------------------------------------------------
+
+LIST_OPS = ["append", "remove", "clear", "sort", "iadd", "reverse", "pop", "insert0"]
+
+
+def doc_markup(tags):
+    """tags = [[name, [[k, v], ...]], ...] -> a flat document, one element per entry"""
+    void = {"link", "area", "br", "input", "img", "hr", "meta"}
+    out = ""
+    for i, (name, attrs) in enumerate(tags):
+        out += markup_for(name, attrs)
+        if name not in void:
+            out += f"t{i}</{name}>"
+    return out
+
+
+def _otag_canon(t) -> str:
+    return f"{tok(t['name'])} ok {t['cls']} {t['lcls']} {enc_items(t['attrs'])} R {oracle_render(t['attrs'])}"
+
+
+def _copy_val(v):
+    return v.__class__(v) if isinstance(v, list) else v
+
+
+def apply_list_op(lst, op, arg):
+    """the in-place operation, on a Python list (used on the real list and on the oracle's own list alike)"""
+    if op == "append":
+        lst.append(arg)
+    elif op == "remove":
+        lst.remove(arg)
+    elif op == "clear":
+        lst.clear()
+    elif op == "sort":
+        lst.sort()
+    elif op == "iadd":
+        lst += list(arg)
+    elif op == "reverse":
+        lst.reverse()
+    elif op == "pop":
+        lst.pop()
+    elif op == "insert0":
+        lst.insert(0, arg)
+    else:
+        raise ValueError(op)
+
+
+def simulate_history(case):
+    """The property statement over a history, in plain Python: every attribute owns a fresh list of its own tokens;
+    an in-place change touches that list only.  Returns (valid flags per step, canonical state after each step,
+    model steps)."""
+    cfg = case["cfg"]
+    table = live_table(cfg)
+    dcls = cfg.get("dcls", "absent")
+    dcls = "plain" if dcls == "absent" else dcls
+    lcls = cfg.get("lcls", 0) or 1
+    _, lc = _classes()
+    tags, valid, states, msteps = [], [], [], []
+    for st in case["steps"]:
+        ok = True
+        if st[0] == "doc":
+            for name, attrs in st[1]:
+                d = {}
+                for k, v in attrs:
+                    d[k] = "" if v is None else v          # replace policy: last value, first position
+                oracle_multi(table, name, d, lcls)
+                tags.append({"name": name, "cls": dcls, "lcls": lcls, "attrs": d})
+                raw = "&".join(f"{tok(k)}={'~' if v is None else tok(v)}" for k, v in attrs) or "-"
+                msteps.append(f"P!{tok(name)}!{raw}")
+        elif st[0] == "new":
+            name, attrs = st[1], st[2]
+            d = {k: v for k, v in attrs}
+            oracle_multi(table, name, d, lcls)
+            tags.append({"name": name, "cls": dcls, "lcls": lcls, "attrs": d})
+            items = "&".join(f"{tok(k)}={enc_val(v)}" for k, v in attrs) or "-"
+            msteps.append(f"N!{tok(name)}!{items}")
+        elif st[0] == "copy":
+            i = st[1]
+            if i >= len(tags):
+                ok = False
+            else:
+                d = {}
+                for k, v in tags[i]["attrs"].items():
+                    oracle_store("html", d, k, _copy_val(v))
+                tags.append({"name": tags[i]["name"], "cls": "html", "lcls": 1, "attrs": d})
+                msteps.append(f"C!{i}")
+        elif st[0] == "mut":
+            _, i, key, op, arg = st
+            v = tags[i]["attrs"].get(key) if i < len(tags) else None
+            if not isinstance(v, list) or (op == "remove" and arg not in v) or (op == "pop" and not v):
+                ok = False
+            else:
+                apply_list_op(v, op, arg)
+                a = "_" if op in ("clear", "sort", "reverse", "pop") else ("/".join(tok(x) for x in arg) or "_") if op == "iadd" else tok(arg)
+                msteps.append(f"M!{i}!{tok(key)}!{op}!{a}")
+        elif st[0] == "set":
+            _, i, kd, vd = st
+            if i >= len(tags):
+                ok = False
+            else:
+                oracle_store(tags[i]["cls"], tags[i]["attrs"], mk_key(kd), mk(vd))
+                msteps.append(f"S!{i}!{enc_key(kd)}={enc_val(mk(vd))}")
+        valid.append(ok)
+        states.append([_otag_canon(t) for t in tags])
+    return valid, states, msteps, tags
+
+
+def history_line(case) -> str:
+    msteps = simulate_history(case)[2]
+    m, d, l = cfg_model(case["cfg"])
+    return f"c17 hist {m} {d} {l} " + ("|".join(msteps) or "-")
+
+
+def exec_history(case):
+    """the same history on the real code, with the checks a history needs: state after every step against the oracle,
+    other attributes against a snapshot taken before each in-place change, no list object shared, search results"""
+    from bs4 import BeautifulSoup
+    from bs4.builder._htmlparser import HTMLParserTreeBuilder
+    cfg = case["cfg"]
+    kw = builder_kwargs(cfg)
+    valid, states = simulate_history(case)[:2]
+    shared = HTMLParserTreeBuilder(**kw) if case["reuse"] else None
+    install_spy()
+    soups, tags, owner, extra = [], [], [], []
+
+    def real_state():
+        return [f"{tok(t.name)} " + show_tag(t) for t in tags]
+
+    def aliasing():
+        seen = {}
+        for j, t in enumerate(tags):
+            for k, v in t.attrs.items():
+                if isinstance(v, list):
+                    if id(v) in seen:
+                        return (seen[id(v)], (j, str(k)))
+                    seen[id(v)] = (j, str(k))
+        return None
+
+    for n, (st, ok) in enumerate(zip(case["steps"], valid)):
+        if not ok:
+            continue
+        if st[0] == "doc":
+            _spy_log.clear()
+            with warnings.catch_warnings():
+                warnings.simplefilter("ignore")
+                soup = BeautifulSoup(doc_markup(st[1]), builder=shared) if shared is not None else \
+                    BeautifulSoup(doc_markup(st[1]), "html.parser", **kw)
+            found = soup.find_all(True)
+            want = [(nm, [(k, v) for k, v in al]) for nm, al in st[1]]
+            if [(a, list(b)) for a, b in _spy_log] != want or len(found) != len(want):
+                case["_skip"] = True         # the tokenizer read the markup differently: not a history we can speak about
+                return "skip", []
+            for t in found:
+                tags.append(t)
+                owner.append(len(soups))
+            soups.append(soup)
+        elif st[0] == "new":
+            tags.append(soups[-1].new_tag(st[1], attrs={k: v for k, v in st[2]}))
+            owner.append(None)
+        elif st[0] == "copy":
+            tags.append(copy.copy(tags[st[1]]))
+            owner.append(None)
+        elif st[0] == "mut":
+            _, i, key, op, arg = st
+            before = real_state()
+            lst = tags[i].attrs.get(key)
+            if not isinstance(lst, list):
+                extra.append(("a multi-valued attribute does not hold a list when it is changed in place",
+                              f"step {n}: tag {i}[{key!r}] is a list", repr(lst)))
+                break
+            try:
+                if op == "iadd":
+                    tags[i][key] += list(arg)
+                else:
+                    apply_list_op(lst, op, arg)
+            except (ValueError, IndexError) as ex:
+                extra.append(("an in-place list operation that is valid on the attribute's documented tokens raised",
+                              f"step {n}: tag {i}[{key!r}].{op}({arg!r}) applies to {states[n - 1][i] if n else '?'}",
+                              f"raised {type(ex).__name__}: {ex}; the tag holds {before[i]}"))
+                break
+            after = real_state()
+            for j, (b, a) in enumerate(zip(before, after)):
+                if j != i and a != b:
+                    extra.append(("an in-place change of one attribute's list changed another tag that was never assigned to",
+                                  f"step {n} ({op} on tag {i}[{key!r}]) leaves tag {j} as it was: {b}", f"tag {j} is now: {a}"))
+                    break
+        elif st[0] == "set":
+            _, i, kd, vd = st
+            tags[i][mk_key(kd)] = mk(vd)
+        al = aliasing()
+        if al and not any("share one list object" in e[0] for e in extra):
+            extra.append(("two attributes share one list object (each attribute must own the list of its own tokens)",
+                          "distinct list objects", f"after step {n}: (tag, attribute) {al[0]} `is` {al[1]}"))
+        got = real_state()
+        if got != states[n] and not any(e[0].startswith("a tag's attributes differ") for e in extra):
+            k = next((j for j, (a, b) in enumerate(zip(got, states[n])) if a != b), min(len(got), len(states[n])))
+            extra.append(("a tag's attributes differ from the documented values in the course of a history",
+                          f"after step {n} ({st[0]}), tag {k}: " + (states[n][k] if k < len(states[n]) else "<none>"),
+                          f"tag {k}: " + (got[k] if k < len(got) else "<none>")))
+    # search results: every tag of each tree is found by exactly its own tokens
+    if not extra and valid:
+        cur = {}
+        fin = states[-1]
+        for si, soup in enumerate(soups):
+            mine = [j for j in range(len(tags)) if owner[j] == si]
+            for key in ("class", "rel", "headers"):
+                vals = [tags[j].attrs.get(key) for j in mine]
+                if any(v is not None and not isinstance(v, (str, list)) for v in vals) or \
+                        any(isinstance(v, list) and not all(isinstance(x, str) for x in v) for v in vals):
+                    continue
+                toks = sorted({x for v in vals if isinstance(v, list) for x in v if x and not any(c.isspace() for c in x)})[:6]
+                for tk in toks + ["zz-absent"]:
+                    want = [j for j in mine if _oracle_matches(case, fin, j, key, tk, cur)]
+                    res = soup.find_all(True, attrs={key: tk})
+                    gotj = [j for j in mine if any(tags[j] is x for x in res)]
+                    if gotj != want:
+                        extra.append(("search by attribute token does not find exactly the tags holding that token",
+                                      f"find_all({key}={tk!r}) in document {si}: tags {want}", f"tags {gotj}"))
+                        break
+    return " ## ".join(real_state()) or "-", extra
+
+
+def _oracle_matches(case, fin, j, key, tk, cache):
+    """does the documented value of tag j's attribute match the token? (a list matches by any element or by its joined
+    form, a string by equality)"""
+    if "tags" not in cache:
+        cache["tags"] = _final_oracle_tags(case)
+    v = cache["tags"][j]["attrs"].get(key)
+    if isinstance(v, list):
+        return tk in v or " ".join(v) == tk
+    return v == tk
+
+
+def _final_oracle_tags(case):
+    """the oracle's final tags as Python objects"""
+    return simulate_history(case)[3]
+
+
+def gen_history_case(r):
+    t, tags, attrs = table_names()
+    # a small pool of raw values, so that identical source strings meet often
+    pool = []
+    for _ in range(r.randint(1, 3)):
+        s = gen_ws_string(r, exotic=r.random() < 0.4)
+        pool.append(s if s.split() else "note\tbig")
+    if r.random() < 0.2:
+        pool.append(r.choice(["", " ", "one"]))
+    pairs = [("p", "class"), ("div", "class"), ("a", "rel"), ("a", "class"), ("link", "rel"), ("td", "headers"),
+             ("th", "headers"), ("span", "accesskey"), ("td", "class"), ("p", "id"), ("a", "href"), ("p", "title")]
+    mva = r.choice(["default"] * 6 + [None, [("*", ["id", "class"])], [("p", ["class", "title"]), ("a", ["href"])]])
+    cfg = {"mva": mva, "dcls": r.choice(["absent", "absent", "plain", "html", "xml"]), "lcls": r.choice([0, 0, 1, 2])}
+
+    def a_tag():
+        name, key = r.choice(pairs)
+        al = [[key, r.choice(pool)]]
+        if r.random() < 0.4:
+            k2 = r.choice(["class", "rel", "id", "title", "headers"])
+            if k2 != key:
+                al.append([k2, r.choice(pool)])
+        return [name, al]
+
+    def a_doc():
+        return ["doc", [a_tag() for _ in range(r.randint(2, 4))]]
+
+    steps = [a_doc()]
+    tagkeys = [[k for k, _ in al] for _, al in steps[0][1]]      # the attributes each tag carries (targets of changes)
+    for _ in range(r.randint(3, 9)):
+        x = r.random()
+        if x < 0.5:
+            i = r.randrange(len(tagkeys))
+            key = r.choice(tagkeys[i]) if r.random() < 0.85 else r.choice(["class", "rel", "headers", "accesskey", "id", "title"])
+            op = r.choice(LIST_OPS)
+            arg = None
+            if op in ("append", "insert0"):
+                arg = r.choice(["seen", "x", "a", "big"])
+            elif op == "remove":
+                arg = r.choice([w for s in pool for w in s.split()] * 3 + ["seen", "x"])
+            elif op == "iadd":
+                arg = [r.choice(["u", "v", "a"]) for _ in range(r.randint(0, 2))]
+            steps.append(["mut", i, key, op, arg])
+        elif x < 0.7:
+            d = a_doc()
+            steps.append(d)
+            tagkeys += [[k for k, _ in al] for _, al in d[1]]
+        elif x < 0.8:
+            name, key = r.choice(pairs)
+            steps.append(["new", name, [[key, r.choice(pool)]]])
+            tagkeys.append([key])
+        elif x < 0.92:
+            i = r.randrange(len(tagkeys))
+            steps.append(["copy", i])
+            tagkeys.append(list(tagkeys[i]))
+        else:
+            vd = r.choice([["s", r.choice(pool)], ["l", 0, ["q", "r"]], ["b", True], ["n"], ["i", "0"], ["i", "7"], ["l", 1, []]])
+            i = r.randrange(len(tagkeys))
+            k = r.choice(["class", "rel", "id"])
+            steps.append(["set", i, ["p", k], vd])
+            if k not in tagkeys[i]:
+                tagkeys[i].append(k)
+    return {"kind": "history", "cfg": cfg, "reuse": r.random() < 0.6, "steps": steps}
+
+
+def directed_history_cases():
+    """the shapes named in the property's history reading, for every in-place operation"""
+    out = []
+    for reuse in (True, False):
+        for dcls in ("absent", "html"):
+            for op, arg in (("append", "seen"), ("remove", "note"), ("clear", None), ("sort", None), ("iadd", ["u"]),
+                            ("reverse", None), ("pop", None), ("insert0", "x")):
+                cfg = {"mva": "default", "dcls": dcls, "lcls": 0}
+                steps = [["doc", [["p", [["class", "note\tbig"]]], ["p", [["class", "note\tbig"]]], ["a", [["rel", "note\tbig"]]]]],
+                         ["mut", 0, "class", op, arg],
+                         ["new", "span", [["class", "note\tbig"]]],
+                         ["doc", [["td", [["headers", "note\tbig"]]], ["p", [["class", "note\tbig"]]]]],
+                         ["copy", 1],
+                         ["mut", 6, "class", op, arg],
+                         ["mut", 3, "class", "append", "late"],
+                         ["doc", [["th", [["headers", "note\tbig"]]]]]]
+                out.append({"kind": "history", "cfg": cfg, "reuse": reuse, "steps": steps})
+    return out
+
+
 def zero_defect_class(case, observed, expected):
     """Does this failing case fall into the class `a number equal to False assigned through HTMLAttributeDict`?
     (Only used to word the report; the defect is marked "fix", not a known finding, so nothing is suppressed.)"""
@@ -802,6 +1132,8 @@ def nontrivial_key(case):
         return ("dict", case["cls"], json.dumps(case["sets"]))
     if k == "parse":
         return ("parse", json.dumps(case["cfg"]), case["markup"])
+    if k == "history":
+        return ("history", json.dumps(case, sort_keys=True, default=str)) if any(st[0] == "mut" for st in case["steps"]) else None
     return ("tag", json.dumps(case, sort_keys=True, default=str))
 
 
@@ -821,6 +1153,9 @@ def check_cases(ctx: Ctx, stream: str, cases: list):
     kept = []
     for c, o, e in zip(cases, obs, exts):
         c.pop("_human", None)
+        if c.pop("_skip", False):
+            ctx.count(f"{stream}:skipped-tokenizer-read-other-markup")
+            continue
         if c["kind"] == "parse":
             seen = c.pop("_seen", None)
             if seen is None:
@@ -1019,6 +1354,20 @@ def run(ctx: Ctx):
         ctx.count("parse-malformed:dup" if len(set(ks)) < len(ks) else "parse-malformed:nodup")
         ctx.count("parse-malformed:valueless" if any(v is None for _, v in c["attrs"]) else "parse-malformed:all-valued")
 
+    # ---- 5b. histories: identical raw values under one builder, lists changed in place ------------------------------
+    r = ctx.rng("history")
+    cases = directed_history_cases() + [gen_history_case(r) for _ in range(ctx.n(2500, 12000))]
+    for c in cases:
+        v = simulate_history(c)[0]
+        ctx.count("history:reused-builder" if c["reuse"] else "history:fresh-builders")
+        ctx.count("history:inplace-changes-applied", sum(1 for st, ok in zip(c["steps"], v) if ok and st[0] == "mut"))
+        ctx.count("history:documents", sum(1 for st in c["steps"] if st[0] == "doc"))
+        ctx.count("history:new_tag+copy", sum(1 for st, ok in zip(c["steps"], v) if ok and st[0] in ("new", "copy")))
+        ms = [n for n, (st, ok) in enumerate(zip(c["steps"], v)) if ok and st[0] == "mut"]
+        if ms and any(st[0] == "doc" for st in c["steps"][ms[0] + 1:]):
+            ctx.count("history:document-parsed-after-an-inplace-change")
+    check_cases(ctx, "history", cases)
+
     # ---- 6. str.lower table: the model's per-code-point lower against the runtime ------------------------------------
     pts = [c for c in range(sys.maxunicode + 1) if not (0xD800 <= c <= 0xDFFF) and chr(c).lower() != chr(c)]
     r = ctx.rng("lower")
@@ -1043,7 +1392,7 @@ def run(ctx: Ctx):
 def replay(path):
     v = json.load(open(path))
     c = v["case"]
-    if c.get("kind") in ("split", "multi", "dict", "parse", "tag"):
+    if c.get("kind") in ("split", "multi", "dict", "parse", "tag", "history"):
         c = {k: x for k, x in c.items() if k != "line"}
         def human(cc):
             if cc["kind"] == "dict":
@@ -1056,6 +1405,24 @@ def replay(path):
                 return f"{how} attrs={pre!r}"[:300] + "; then " + "; ".join(f"tag[{mk_key(kd)!r}] = {vd!r}"[:80] for kd, vd in cc["sets"])
             if cc["kind"] == "parse":
                 return f"BeautifulSoup({cc['markup']!r}, 'html.parser', options={cc['cfg']!r})"
+            if cc["kind"] == "history":
+                out = [f"builder options {cc['cfg']!r}; " + ("ONE builder object for all documents" if cc["reuse"] else "a fresh builder per document")]
+                n = 0
+                for st in cc["steps"]:
+                    if st[0] == "doc":
+                        out.append(f"  parse {doc_markup(st[1])!r}  -> tags {n}..{n + len(st[1]) - 1}")
+                        n += len(st[1])
+                    elif st[0] == "new":
+                        out.append(f"  tag {n} = soup.new_tag({st[1]!r}, attrs={dict(st[2])!r})")
+                        n += 1
+                    elif st[0] == "copy":
+                        out.append(f"  tag {n} = copy.copy(tag {st[1]})")
+                        n += 1
+                    elif st[0] == "mut":
+                        out.append(f"  tag {st[1]}[{st[2]!r}].{st[3]}({'' if st[4] is None else repr(st[4])})   (skipped when not applicable)")
+                    else:
+                        out.append(f"  tag {st[1]}[{mk_key(st[2])!r}] = {st[3]!r}")
+                return "\n".join(out)
             return json.dumps(cc)
         print("input:", human(c))
         try:
